@@ -752,6 +752,13 @@ impl<'a> GeneratorState<'a> {
                     };
                     match sub_output {
                         ExprType::Nothing => {
+                            if let Expr::Nothing = **sub {
+                            } else {
+                                // A subscript was written, but it has no value (a call to a void function)
+                                return Err(self
+                                    .compiler_state
+                                    .syntax_error("Subscript has no value", pos));
+                            }
                             if let VariableDefinition::Value(VariableValue::Int(val)) = &v.def {
                                 Ok(ExprType::Immediate(*val))
                             } else if high_byte && v.var_type == VariableType::Char && v.signed {
